@@ -625,6 +625,21 @@ class Ctx:
         return NotImplemented
 
     def convert_hook(self, I, what, x):
+        if what == "float" and isinstance(x, FStr) and len(x.parts) == 1 and isinstance(x.parts[0], tuple):
+            _, v, spec = x.parts[0]
+            if isinstance(spec, str) and spec.startswith(".") and spec.endswith("f") and spec[1:-1].isdigit() \
+                    and sym.is_num(v):
+                # float(f"{v:.Nf}"): the nearest multiple of 10^-N (ties unspecified) -- A-STR/A-REAL
+                n = int(spec[1:-1])
+                r = self.fresh("rounded", "Real")
+                half = z3.RealVal(Fraction(1, 2 * 10 ** n))
+                zv = sym.zreal(v)
+                self.assume(r - zv <= half)
+                self.assume(zv - r <= half)
+                k = self.fresh("k_int", "Int")
+                self.assume(r * (10 ** n) == z3.ToReal(k))
+                self.result.assumptions.add("A-STR: float(f'{v:.Nf}') is a multiple of 10^-N within half a unit of v")
+                return r
         for p in self.plugins:
             r = p.convert(I, what, x)
             if r is not NotImplemented:
@@ -1482,7 +1497,7 @@ class Ctx:
         a = target.node.args
         pnames = [x.arg for x in a.posonlyargs + a.args]
         args = [env[p] for p in pnames if p in env]
-        kwargs = {}
+        kwargs = {x.arg: env[x.arg] for x in a.kwonlyargs if x.arg in env}
         try:
             result = I.inline_call(target, args, kwargs, fr, spec=False)
             outcome = ("return", result)
